@@ -208,7 +208,7 @@ func (r *evmcRun) project(ctx sdk.Context) M {
 		grantVals[g] = gvm
 		grantExp[g] = gxm
 	}
-	mods := M{}
+	mods := M{"escrow": bigStr(app.BankKeeper.GetBalance(ctx, IcsEscrow(), utils.BaseDenom).Amount)}
 	for nm, mod := range map[string]string{"bonded": stakingtypes.BondedPoolName, "notbonded": stakingtypes.NotBondedPoolName,
 		"distr": distrtypes.ModuleName, "feecollector": authtypes.FeeCollectorName, "evm": evmtypes.ModuleName} {
 		mods[nm] = bigStr(app.BankKeeper.GetBalance(ctx, authtypes.NewModuleAddress(mod), utils.BaseDenom).Amount)
@@ -332,6 +332,7 @@ func evmcOne(tw *TraceWriter, scn int, src string, sc evmcScenario) {
 			panic(err)
 		}
 	}
+	OpenLoopbackChannel(n)
 	if sc.Setup.Denom2 {
 		// a second denomination in the fee collector: delegation rewards in more than one denomination
 		dctx := n.Ctx()
